@@ -121,10 +121,17 @@ Definition bufreal_verdict (n : nat) (ks0 : list N) (segs : list bseg) (advertis
    21: a message went to a peer outside the K nearest / with wrong addresses;
    22: a kept key was not re-advertised in time; 23: a stopped key was advertised again;
    24: a ProvideOnce key was not advertised. *)
-Definition trace_verdict (p : params) (tr : trace) (panicked : bool) : nat :=
+Definition with_D (p : params) (d : N) : params :=
+  {| p_r := p_r p; p_K := p_K p; p_D := d; p_G := p_G p; p_W := p_W p; p_end := p_end p |}.
+(* [d2] = D + half an interval.  25: clause 2 fails for D = interval + allowed delay but every
+   kept key was advertised at least every D + interval/2: advertisements come late (the
+   allowed delay is not enforced when scheduled regions are merged into a coarser prefix),
+   no cycle is skipped.  22: a key waited even longer. *)
+Definition trace_verdict (p : params) (d2 : N) (tr : trace) (panicked : bool) : nat :=
   if panicked then 3%nat else
   match accepts_code p tr with
   | O => 0%nat
+  | 2%nat => if Nat.eqb (accepts_code (with_D p d2) tr) 0 then 25%nat else 22%nat
   | c => (20 + c)%nat
   end.
 
@@ -159,7 +166,7 @@ Definition sched_verdict (I : N) (order : bits) (times : list (bits * N)) (tbs :
 Inductive case :=
 | CBuf (batch_size : nat) (ks0 : list N) (segs : list bseg) (impl : list icall) (panicked : bool)
 | CBufReal (batch_size : nat) (ks0 : list N) (segs : list bseg) (advertised kept : list N) (panicked : bool)
-| CTrace (p : params) (tr : trace) (panicked : bool)
+| CTrace (p : params) (d2 : N) (tr : trace) (panicked : bool)
 | CSched (I : N) (order : bits) (times : list (bits * N)) (tbs : list (N * N * N))
          (adds : list bits) (ents : list (bits * N)) (panicked : bool).
 
@@ -167,7 +174,7 @@ Definition verdict (c : case) : nat :=
   match c with
   | CBuf n ks0 segs impl p => buf_verdict n ks0 segs impl p
   | CBufReal n ks0 segs adv kept p => bufreal_verdict n ks0 segs adv kept p
-  | CTrace p tr panicked => trace_verdict p tr panicked
+  | CTrace p d2 tr panicked => trace_verdict p d2 tr panicked
   | CSched iv order times tbs adds ents p => sched_verdict iv order times tbs adds ents p
   end.
 
